@@ -449,6 +449,8 @@ def run_docs(case, cls, g):
         except Exception as e:
             got, err = False, f"{type(e).__name__}: {e}"[:160]
         if got != want and len(mismatches) < 6:
+            if kind.startswith("unique:") and want and not got and short_positional(schema, doc, defs):
+                kind = "PHEN:short-positional-array"      # the varied element is itself a too-short positional array
             mismatches.append({
                 "key": ("exact:" + kind[5:] if kind.startswith("PHEN:")
                         else f"exact:{'accepts-invalid' if got else 'rejects-valid'}:{kind}" if kind.startswith("unique:")
